@@ -582,7 +582,7 @@ func genImportEqCase(rt *rapid.T) ImportEqCase {
 
 func runImportEq(t *testing.T) {
 	H.Rule("importeq", "rapid: a CommonJS-style TypeScript entry (optionally bundled with 1–3 internal modules that end in `export = object | class | function | namespace` or use ES exports, and that require each other and externals through import-equals) made of `import r = require(\"…\")` statements placed between log markers (every require alias is used as a value, directly or inside a function), `export import r = require(…)`, and `import a = N.x.y` aliases into an instantiated namespace (values, functions, nested namespaces, enums, const enums, types), a type-only namespace and a `declare namespace`: chains of aliases, aliases of aliases, aliases used as values / only as types / not at all, `export import` at top level and inside a namespace, aliases inside a namespace body, a namespace consisting only of unexported aliases, mutation of the namespace after the alias (aliases are snapshots), `export =` in the entry; × bundle (format cjs) or transform (format cjs) × minify. The JavaScript meaning is written by hand: require in statement position (a 10-line module cache for internal modules), `var a = N.x.y` iff the alias denotes a value and is referenced as a value (directly, exported, or as the base of such an alias), nothing otherwise, `X.a = …` for an exported alias inside namespace X, no object for a namespace without value members, `module.exports = v` for `export =`. Oracle: V8 trace (log events, require order of externals, module.exports) of esbuild's output == that of the meaning. Excluded: unused `import x = require()` (tsc elides it, esbuild documents that it keeps it), use before the alias statement, observing the key set of a namespace that contains a const enum. non-trivial = ≥3 events and ≥2 features")
-	H.SetupRapid("importeq", H.N(2000, 100000))
+	H.SetupRapid("importeq", H.N(2000, 40000))
 	rapid.Check(t, func(rt *rapid.T) {
 		c := genImportEqCase(rt)
 		H.Report(rt, "importeq", filesText(c.Files)+fmt.Sprint(c.Bundle, c.Minify), c, judgeImportEq(c))
